@@ -323,7 +323,25 @@ pub fn prelude(kind: i64, seed: u64, m: &Model, ctx: &mut Ctx) {
             // game needs.
             let size = if rng.chance(1, 4) { crate::gen::SizeClass::Medium } else { crate::gen::SizeClass::Small };
             let cfg = crate::gen::GenCfg { size: Some(size), force_version: Some(m.version), ..Default::default() };
-            let other = crate::gen::gen_recorder(&mut rng, &cfg);
+            let mut other = crate::gen::gen_recorder(&mut rng, &cfg);
+            if rng.chance(1, 2) && !m.ports.is_empty() {
+                // the same ports as the scenario's game, with the Ice Climbers flags moved to other ports
+                // (or toggled): anything memoised per (version, occupied ports) sees a near-twin first
+                let mut ports = m.ports.clone();
+                let n = ports.len();
+                let flags: Vec<bool> = ports.iter().map(|p| p.ics).collect();
+                let differs = n >= 2 && flags.iter().any(|f| *f) && !flags.iter().all(|f| *f);
+                for (i, p) in ports.iter_mut().enumerate() {
+                    p.ics = if differs { flags[(i + 1) % n] } else { !flags[i] };
+                }
+                other.ports = ports;
+                for (k, f) in other.frames.iter_mut().enumerate() {
+                    if k % 2 == 0 {
+                        f.present = 0xFF;
+                    }
+                }
+                ctx.probe("prelude: a near-twin (same version and ports, Ice Climbers elsewhere) was processed first");
+            }
             let om = crate::recorder::build(&other);
             let slpp_ok = crate::layout::gte(m.v, (3, 7)) || !crate::layout::gte(m.v, (3, 0));
             let reps = 1 + rng.below(2);
